@@ -119,7 +119,9 @@ def main():
     samples = [o.to_json() for o in obls[:6]] + [o.to_json() for o in failed[:6]]
     fns = sorted(set(o.fn for o in obls if o.fn))
     coverage = {
-        "obligations": len([o for o in obls if o.status != BOUNDED_OK]),
+        # obligations that fail exactly as a listed known finding are reported under
+        # `known_findings_failed` and are not part of the proved set
+        "obligations": len([o for o in obls if o.status != BOUNDED_OK and o not in kf]),
         "discharged": n_dis,
         "bounded_obligations": [o.to_json() for o in obls if o.status == BOUNDED_OK],
         "bounded_ok": n_bnd,
